@@ -41,6 +41,11 @@ class Validator():
 
     def validate(self, json):
         problems = []
+        if not isinstance(json, dict):
+            # The root is specified as a JSON object; validate_node skips
+            # anything else, which would otherwise pass as having no problems.
+            problems.append(f"{self.parser.root} must be an Object")
+            return problems
         validator = NodeValidator(self.parser)
         validator.validate_node(json, self.parser.root, [self.parser.root], problems)
         return problems
